@@ -5,7 +5,7 @@
    field's shape, and one slot per oneof); it holds in every heap reachable from the empty heap by ANY history
    (reachable_shape_invariant), whatever operands the history chooses. Receivers are `PMsg (o_mid ob) (Some id)`:
    the valid message handle of object id. *)
-From CP Require Import Reflect ReflectLaws RefReflect ReflectAbs ReflectRefine.
+From CP Require Import Reflect ReflectLaws RefReflect ReflectAbs ReflectRefine ReflectProg ReflectProgProofs.
 From Coq Require Import Sorted.
 Local Open Scope nat_scope.
 
@@ -295,3 +295,94 @@ Example ex_refines :
     AOList (TScalar KInt64) (RField 0 3); AOUnit;
     AORange [ (2, AOMsg 0 (Some 1)); (3, AOList (TScalar KInt64) (RField 0 3)) ] ].
 Proof. vm_compute. split; reflexivity. Qed.
+
+(* ---- the generated fast-reflection methods are Reflect.step (DESIGN 12.7: translator tie) ------------------------- *)
+(* The eight methods  Has Clear Get Set Mutable NewField WhichOneof Range  the templates print for a message type
+   (Model/ReflectProg.v: canon_has … canon_range, compared literally with the parsed *.pulsar.go on every run), executed
+   by the interpreters of their statement languages, compute Reflect.step: for every well-formed schema, every heap
+   satisfying the invariant rp_heap_okb (the shape invariant + a oneof slot holds a member of that oneof), every receiver
+   and operand. Side conditions: Range needs the members of a oneof declared consecutively (rp_contigb); Set of a list /
+   map view needs the view's element type to be the field's (set_arg_okb). Proofs: Proofs/ReflectProgProofs.v. *)
+Theorem has_prog_correct : has_prog_stmt.
+Proof. exact ReflectProgProofs.has_prog_correct. Qed.
+
+Theorem clear_prog_correct : clear_prog_stmt.
+Proof. exact ReflectProgProofs.clear_prog_correct. Qed.
+
+Theorem get_prog_correct : get_prog_stmt.
+Proof. exact ReflectProgProofs.get_prog_correct. Qed.
+
+Theorem set_prog_correct : set_prog_stmt.
+Proof. exact ReflectProgProofs.set_prog_correct. Qed.
+
+Theorem mutable_prog_correct : mutable_prog_stmt.
+Proof. exact ReflectProgProofs.mutable_prog_correct. Qed.
+
+Theorem newfield_prog_correct : newfield_prog_stmt.
+Proof. exact ReflectProgProofs.newfield_prog_correct. Qed.
+
+Theorem whichoneof_prog_correct : whichoneof_prog_stmt.
+Proof. exact ReflectProgProofs.whichoneof_prog_correct. Qed.
+
+Theorem range_prog_correct : range_prog_stmt.
+Proof. exact ReflectProgProofs.range_prog_correct. Qed.
+
+(* Range with any callback: the calls of the full iteration up to and including the first one answered false *)
+Theorem range_stop_prog_correct : range_stop_prog_stmt.
+Proof. exact ReflectProgProofs.range_stop_prog_correct. Qed.
+
+(* all eight at once: one operation executed with the canonical methods of every message type is Reflect.step *)
+Theorem reflect_prog_correct : reflect_prog_correct_stmt.
+Proof. exact ReflectProgProofs.reflect_prog_correct. Qed.
+
+(* the invariant of the statements above is kept by every step (and holds of the empty heap: ex_reflect_prog) *)
+Theorem rp_heap_ok_kept : rp_heap_ok_kept_stmt.
+Proof. exact ReflectProgProofs.rp_heap_ok_kept. Qed.
+
+(* non-vacuity. message 0: x int32; oneof { a string; b message 0 }; r repeated int64; m map<string,int32>; c message 0.
+   heap: object 0 = {x: 5, oneof: wrapper of b holding nil, r: [7], m: {"k": 1}, c: object 1}; object 1 = empty;
+   entry 2 = a stand-alone slice [1, 2] (as NewField + Append make it).
+   Set r := the view of entry 2; Mutable b (the wrapper holds nil: a message is allocated in place, object 3); Range
+   (all five populated fields, in declaration order); Range stopped by the callback at field 3. *)
+Example ex_reflect_prog :
+  let ex_sch : schema :=
+  [ {| m_fields := [ {| f_num := 1; f_ty := TScalar KInt32; f_shape := Singular |};
+                     {| f_num := 2; f_ty := TScalar KString; f_shape := Member 0 |};
+                     {| f_num := 3; f_ty := TMsg 0; f_shape := Member 0 |};
+                     {| f_num := 4; f_ty := TScalar KInt64; f_shape := Rep true |};
+                     {| f_num := 5; f_ty := TScalar KInt32; f_shape := MapOf KString |};
+                     {| f_num := 6; f_ty := TMsg 0; f_shape := Singular |} ];
+       m_oneofs := 1; m_impl := Pulsar |} ] in
+  let progs := fun mid => Some (canon_progs ex_sch mid) in
+  let h0 : heap :=
+    [ HObj (mkObj 0 [ CScalar (VInt 5); CMember; CMember; CList (Some [EScalar (VInt 7)]);
+                      CMap (Some [(VBytes [Coq.Init.Byte.x6b], EScalar (VInt 1))]); CMsg (Some 1) ]
+                  [ Some (2, EPtr None) ] None);
+      HObj (new_obj ex_sch 0);
+      HListVar (Some [EScalar (VInt 1); EScalar (VInt 2)]) ] in
+  let x := PMsg 0 (Some 0) in
+  let o1 := OSet x 3 (PList (TScalar KInt64) (RVar 2)) in
+  let o2 := OMutable x 2 in
+  let o3 := ORange x in
+  let h1 := fst (step ex_sch h0 o1) in
+  let h2 := fst (step ex_sch h1 o2) in
+  wf ex_sch = true /\ rp_contigb ex_sch = true /\
+  rp_heap_okb ex_sch [] = true /\ rp_heap_okb ex_sch h0 = true /\ rp_heap_okb ex_sch h2 = true /\
+  set_arg_okb ex_sch o1 = true /\
+  rp_step ex_sch progs h0 o1 = Some (step ex_sch h0 o1) /\
+  rp_step ex_sch progs h1 o2 = Some (step ex_sch h1 o2) /\
+  rp_step ex_sch progs h2 o3 = Some (step ex_sch h2 o3) /\
+  rp_step ex_sch progs h2 (OGet (PMsg 0 None) 3) = Some (h2, PList (TScalar KInt64) RNil) /\
+  rp_step ex_sch progs h2 (OWhichOneof x 0) = Some (h2, PField (Some 2)) /\
+  rp_step ex_sch progs h2 (OClear (PMsg 0 None) 0) = Some (h2, PPanic) /\
+  snd (step ex_sch h0 o1) = PUnit /\
+  read_list h1 (RField 0 3) = Some (Some [EScalar (VInt 1); EScalar (VInt 2)]) /\
+  snd (step ex_sch h1 o2) = PMsg 0 (Some 3) /\
+  get_obj h2 3 = Some (new_obj ex_sch 0) /\
+  option_map o_oneofs (get_obj h2 0) = Some [Some (2, EPtr (Some 3))] /\
+  step ex_sch h2 o3 =
+    (h2, PRange [ (0, PScalar (VInt 5)); (2, PMsg 0 (Some 3)); (3, PList (TScalar KInt64) (RField 0 3));
+                  (4, PMap KString (TScalar KInt32) (RField 0 4)); (5, PMsg 0 (Some 1)) ]) /\
+  run_range ex_sch (fun i _ => Nat.ltb i 3) (canon_range ex_sch 0) h2 x =
+    Some (h2, PRange [ (0, PScalar (VInt 5)); (2, PMsg 0 (Some 3)); (3, PList (TScalar KInt64) (RField 0 3)) ]).
+Proof. vm_compute. repeat split; reflexivity. Qed.
